@@ -39,8 +39,8 @@ ExtraFn == [c \in {Input.extra[j].cp : j \in DOMAIN Input.extra} |->
                LET j == CHOOSE j \in DOMAIN Input.extra : Input.extra[j].cp = c IN Input.extra[j]]
 TraceExtraInfo(c) == ExtraFn[c]
 
-VARIABLES i, v
-vars == <<i, v>>
+VARIABLES idx, vd
+vars == <<idx, vd>>
 
 TokOK(st, ot) ==
     /\ st.type = ot.type
@@ -90,7 +90,9 @@ Explain(c, lx) ==
     IF one # {} THEN one
     ELSE LET two == {S \in SUBSET Candidates : Cardinality(S) = 2 /\ ParseClauses(c, lx, BaseDeviations \cup S) = <<>>} IN
          IF two # {} THEN two
-         ELSE {S \in SUBSET Candidates : Cardinality(S) = 3 /\ ParseClauses(c, lx, BaseDeviations \cup S) = <<>>}
+         ELSE LET three == {S \in SUBSET Candidates : Cardinality(S) = 3
+                                                        /\ ParseClauses(c, lx, BaseDeviations \cup S) = <<>>} IN
+              IF three # {} THEN three ELSE {Candidates}      \* more than three needed: the listed set itself
 
 Verdict(j) ==
     LET c == Cases[j]
@@ -98,28 +100,35 @@ Verdict(j) ==
         lc == LexClauses(c, lx)
         pn == ParseClauses(c, lx, BaseDeviations)
         pd == IF InDeviations = BaseDeviations THEN pn ELSE ParseClauses(c, lx, InDeviations)
+        li == IF "want" \in DOMAIN c
+              THEN (LET r == ParseLexedD(lx, BaseDeviations) IN r.ok /\ r.tree = c.want) ELSE TRUE
     IN [i |-> j,
         v |-> IF lc = <<>> /\ pd = <<>> THEN "accepted" ELSE "rejected",
         lex |-> lc, n |-> pn, d |-> pd,
         expl |-> IF pn # <<>> /\ pd = <<>> THEN Explain(c, lx) ELSE {},
-        spec |-> IF lc = <<>> /\ pn = <<>> THEN [ok |-> TRUE]      \* what the specification expected, for the report
+        \* LayoutInv (C15) on the specification itself: the text was rendered from tree c.want
+        layoutinv |-> li,
+        spec |-> IF lc = <<>> /\ pn = <<>> /\ li
+                 THEN [ok |-> TRUE]      \* what the specification expected, for the report
                  ELSE [toks |-> [k \in DOMAIN lx.toks |-> [type |-> lx.toks[k].type, text |-> lx.toks[k].text,
                                                          line |-> lx.toks[k].line, ilineno |-> lx.toks[k].ilineno]],
                        lexerr |-> lx.err,
                        n |-> ParseLexedD(lx, BaseDeviations), d |-> ParseLexedD(lx, InDeviations)]]
 
-Init == /\ i \in {b \in 1..NCases : (b - 1) % Block = 0}
-        /\ v = Verdict(i)
+(* The initial states carry no verdict: all the work is done in Next, i.e. by the TLC worker threads *)
+(* (parallel, and with the large thread stacks the recursive operators need on long texts).        *)
+Init == /\ idx \in {b \in 0..(NCases - 1) : b % Block = 0}
+        /\ vd = [i |-> 0, v |-> "init"]
 
-Next == /\ i % Block # 0
-        /\ i < NCases
-        /\ i' = i + 1
-        /\ v' = Verdict(i')
+Next == /\ idx < NCases
+        /\ idx % Block # 0 \/ vd.v = "init"
+        /\ idx' = idx + 1
+        /\ vd' = Verdict(idx')
 
 Spec == Init /\ [][Next]_vars
 
-Emit == PrintT(ToJson(v))
-Accepted == v.v = "accepted"
+Emit == PrintT(ToJson(vd))
+Accepted == vd.v \in {"accepted", "init"}
 
 ASSUME InDeviations \subseteq AllDeviations /\ BaseDeviations \subseteq InDeviations
 =============================================================================
